@@ -1,10 +1,24 @@
 (* Extract.v -- extraction of the executable model for the correspondence check.
    Only ExtrOcamlBasic is used (bool, option, unit, list, prod, sumbool -> OCaml natives);
    N, positive, Z, nat stay Coq inductives.  No Extract Constant of our own. *)
-Require Import Base CharSet.
+Require Import Base CharSet Partition LoopRange Regex Inclusion Constructors Deriv Explore Automaton Minimizer Compile Denote.
 Require Extraction.
 Require Import ExtrOcamlBasic.
 Extraction "extracted/model.ml"
   MAXC REPLC goodb N.to_nat N.of_nat Z.to_N Z.of_N
   cs_contains cs_covers cs_is_before cs_is_after cs_size cs_is_singleton cs_is_alphabet cs_pick
-  cs_inter cs_inter_list cs_union cs_pcmp cs_eqb cs_singleton cs_all cs_validb.
+  cs_inter cs_inter_list cs_union cs_pcmp cs_eqb cs_singleton cs_all cs_validb
+  (* regex *)
+  new_mgr complement concat concat_list mk_loop range mchar char_set mstr smt_range
+  inter union diff inter_list union_list diff_list star plus opt exp smt_loop loop_inf included_in
+  deriv char_derivative str_derivative str_in_re class_derivative class_derivative_unchecked
+  set_derivative set_derivative_unchecked
+  iter_derivatives is_empty_re start_char start_class get_string
+  naive_re_search str_replace_re str_replace_re_all
+  rid rnul rnode rcls re_eqb pclass_ids ppick ppicks pempty_complement pvalid pclass_of_char pclass_of_set
+  lr_star lr_plus lr_opt lr_point
+  (* automata *)
+  compile_with_bound remove_unreachable pick_alphabet combined_partition compile_successors ct_eval minimize
+  b_new b_mark_final b_set_default b_add_transition build build_unchecked a_next a_state a_accepts a_str_next edges
+  (* denotation / oracle *)
+  mref p_smtrange p_concat_list p_union_list p_inter_list p_diff_list p_sderiv goodwb.
